@@ -1935,7 +1935,16 @@ mod ir_builder {
         let mut md_map = HashMap::new();
 
         for (ir_idx, ir_md) in ir_metadata {
-            let md = convert_md(ir_md, &mut md_map);
+            let md = match ir_md {
+                // A string on its own is a file location: `Metadatum::SourceId` is printed as the
+                // (quoted) path of the source file, strings proper only occur as struct fields.
+                IrMetadatum::String(path) => Metadatum::SourceId(
+                    context
+                        .source_engine
+                        .get_source_id(&std::path::PathBuf::from(path)),
+                ),
+                ir_md => convert_md(ir_md, &mut md_map),
+            };
             let md_idx = MetadataIndex(context.metadata.insert(md));
             md_map.insert(ir_idx, md_idx);
         }
